@@ -106,6 +106,13 @@ pub struct FaultSpec {
     pub nth: u64,
     pub errno: i32,
     pub mode: FailMode,
+    /// an episode instead of a single failure: this many FURTHER faultable calls fail after the
+    /// `nth` one (0 = one transient failure)
+    pub extra: u32,
+    /// the episode is a full disk: only calls that need space (write, create) fail, with the
+    /// same errno; fsync, unlink and the read side keep working. Otherwise every faultable call
+    /// of the episode fails with EIO.
+    pub space_only: bool,
 }
 
 #[derive(Clone, Debug)]
@@ -134,6 +141,8 @@ pub struct FsState {
     pub fault: Option<FaultSpec>,
     pub fault_reads: bool,
     pub faultable_seen: u64,
+    /// failures still owed by the running episode (see `FaultSpec::extra`)
+    pub burst_left: u32,
     pub fired: Vec<FiredFault>,
     pub legal_fired: BTreeMap<&'static str, u64>,
     pub discipline: Vec<String>,
@@ -258,10 +267,26 @@ fn decide_latency(sim: &Sim, me: usize) {
 }
 
 /// Should this faultable call fail? Counts it. Returns the spec when it is the chosen one.
-fn take_fault(fs: &mut FsState) -> Option<FaultSpec> {
+fn take_fault(fs: &mut FsState, op: IoOp) -> Option<FaultSpec> {
     fs.faultable_seen += 1;
     match &fs.fault {
-        Some(f) if f.nth == fs.faultable_seen => Some(f.clone()),
+        Some(f) if f.nth == fs.faultable_seen => {
+            fs.burst_left = f.extra;
+            Some(f.clone())
+        }
+        Some(f) if fs.burst_left > 0 && fs.faultable_seen > f.nth => {
+            let needs_space = matches!(op, IoOp::Write | IoOp::Create | IoOp::OpenWriteExisting);
+            if f.space_only && !needs_space {
+                return None;
+            }
+            let mut g = f.clone();
+            g.mode = FailMode::Clean;
+            if !f.space_only {
+                g.errno = libc::EIO;
+            }
+            fs.burst_left -= 1;
+            Some(g)
+        }
         _ => None,
     }
 }
@@ -317,7 +342,7 @@ pub fn hook_open(path: &[u8], flags: i32, real: impl FnOnce() -> i64) -> i64 {
         let pid = fs.path_id(&rel);
         let faultable = op != IoOp::OpenRead || fs.fault_reads;
         if faultable {
-            if let Some(f) = take_fault(&mut fs) {
+            if let Some(f) = take_fault(&mut fs, op) {
                 let seq = fs.push(now, step, me, op, pid, -1, flags as u64, 0, -(f.errno as i64), true, "open");
                 let idx = fs.faultable_seen;
                 fs.fired.push(FiredFault { seq, op, path: pid, errno: f.errno, tag: op_tag(), tid: me, short: None, index: idx });
@@ -432,7 +457,7 @@ pub fn hook_write(fd: i32, buf: &[u8], real: impl FnOnce(&[u8]) -> i64, pos: imp
     let mut limit = buf.len();
     {
         let mut fs = lock(sim);
-        if let Some(f) = take_fault(&mut fs) {
+        if let Some(f) = take_fault(&mut fs, IoOp::Write) {
             let idx = fs.faultable_seen;
             match f.mode {
                 FailMode::Clean => {
@@ -516,7 +541,7 @@ pub fn hook_fsync(fd: i32, real: impl FnOnce() -> i64) -> i64 {
     let pid = lock(sim).incs[info.inc].path;
     {
         let mut fs = lock(sim);
-        if let Some(f) = take_fault(&mut fs) {
+        if let Some(f) = take_fault(&mut fs, IoOp::Fsync) {
             let idx = fs.faultable_seen;
             let seq = fs.push(now, step, me, IoOp::Fsync, pid, fd, 0, 0, -(f.errno as i64), true, "fsync");
             fs.fired.push(FiredFault { seq, op: IoOp::Fsync, path: pid, errno: f.errno, tag: op_tag(), tid: me, short: None, index: idx });
@@ -561,7 +586,7 @@ pub fn hook_unlink(path: &[u8], real: impl FnOnce() -> i64) -> i64 {
         // an unlink of a path that does not exist is not a faultable call of interest: it
         // fails with ENOENT by itself
         if fs.live_inc(pid).is_some() {
-            if let Some(f) = take_fault(&mut fs) {
+            if let Some(f) = take_fault(&mut fs, IoOp::Unlink) {
                 let idx = fs.faultable_seen;
                 let seq = fs.push(now, step, me, IoOp::Unlink, pid, -1, 0, 0, -(f.errno as i64), true, "unlink");
                 fs.fired.push(FiredFault { seq, op: IoOp::Unlink, path: pid, errno: f.errno, tag: op_tag(), tid: me, short: None, index: idx });
@@ -651,7 +676,7 @@ pub fn hook_read_side(op: IoOp, fd: i32, path: Option<&[u8]>, fail_errnos_ok: bo
     {
         let mut fs = lock(sim);
         if fs.fault_reads && fail_errnos_ok {
-            if let Some(f) = take_fault(&mut fs) {
+            if let Some(f) = take_fault(&mut fs, op) {
                 let idx = fs.faultable_seen;
                 let seq = fs.push(now, step, me, op, pid, fd, 0, 0, -(f.errno as i64), true, "read-side");
                 fs.fired.push(FiredFault { seq, op, path: pid, errno: f.errno, tag: op_tag(), tid: me, short: None, index: idx });
